@@ -169,6 +169,26 @@ Proof.
   - injection H as ->. f_equal. f_equal. cbn; lia.
   - rewrite (IH (base + 1) i m H). f_equal. f_equal. lia.
 Qed.
+Lemma handle_success_nth c bts l : forall base i m, nth_error l i = Some m ->
+  nth_error (handle_success c base bts l) i = Some (m, base + Z.of_nat i, reported_ts c bts m).
+Proof.
+  induction l as [|x l IH]; intros base i m H; [destruct i; discriminate|].
+  destruct i as [|i]; cbn [nth_error handle_success] in *.
+  - injection H as ->. f_equal. f_equal. f_equal. cbn; lia.
+  - rewrite (IH (base + 1) i m H). f_equal. f_equal. f_equal. lia.
+Qed.
+Lemma handle_success_offsets c bts l : forall base,
+  map (fun x => (fst (fst x), snd (fst x))) (handle_success c base bts l) = assign_offsets base l.
+Proof. induction l as [|x l IH]; intros base; [reflexivity|]. cbn [handle_success assign_offsets map fst snd]. now rewrite IH. Qed.
+Lemma handle_success_length c bts l : forall base, length (handle_success c base bts l) = length l.
+Proof. induction l; intros; cbn [handle_success length]; auto. Qed.
+Lemma stamp_lookup lat lg : forall off e, log_lookup off lg = Some e ->
+  log_lookup off (stamp_log lat lg) = Some (if lat =? ZERO_TIME then e else stamp_entry lat e).
+Proof.
+  unfold stamp_log. destruct (lat =? ZERO_TIME); [auto|].
+  induction lg as [|[o x] r IH]; intros off e; cbn [log_lookup map fst snd]; [discriminate|].
+  destruct (o =? off); [intros H; injection H as ->; reflexivity | apply IH].
+Qed.
 Lemma assign_length l : forall base, length (assign_offsets base l) = length l.
 Proof. induction l; intros; cbn [assign_offsets length]; auto. Qed.
 
@@ -278,13 +298,28 @@ Theorem request_decodes_to_submitted k x r base :
   append_records base (decoded_view r) = placed_from base (map (image c) (ps_msgs x)).
 Proof. intros H B. split; [now apply reach_msgs | apply part_log; [now apply (reach_aligned k) | exact B]]. Qed.
 
-Theorem offset_identifies k x r base i m :
+Theorem offset_identifies k x r base bts i m :
   part_lookup k (s_parts s) = Some x -> build_part c x = Some r -> nth_error (ps_msgs x) i = Some m ->
-  nth_error (assign_offsets base (ps_msgs x)) i = Some (m, base + Z.of_nat i) /\
+  nth_error (handle_success c base bts (ps_msgs x)) i = Some (m, base + Z.of_nat i, reported_ts c bts m) /\
   log_lookup (base + Z.of_nat i) (append_records base (decoded_view r)) = Some (image c m).
 Proof.
-  intros H B N. split; [now apply assign_nth|].
+  intros H B N. split; [now apply handle_success_nth|].
   rewrite (part_log c x r base (reach_aligned k x H) B). apply placed_lookup. now apply map_nth_error.
+Qed.
+
+(* a LogAppendTime topic: the leader stamps the entries with its clock [lat] and answers it; the offset still identifies the
+   message (key, value, headers), the log and the reported Timestamp both hold the broker's time *)
+Theorem offset_identifies_log_append k x r base lat i m :
+  part_lookup k (s_parts s) = Some x -> build_part c x = Some r -> nth_error (ps_msgs x) i = Some m ->
+  v0_10 c = true -> lat <> ZERO_TIME ->
+  nth_error (handle_success c base lat (ps_msgs x)) i = Some (m, base + Z.of_nat i, lat) /\
+  log_lookup (base + Z.of_nat i) (stamp_log lat (append_records base (decoded_view r))) =
+    Some (mkEntry (pm_key m) (pm_value m) (if v0_11 c then pm_headers m else []) (Some lat)).
+Proof.
+  intros H B N Hv Hl. destruct (offset_identifies k x r base lat i m H B N) as [A1 A2]. split.
+  - rewrite A1. unfold reported_ts. rewrite Hv. apply Z.eqb_neq in Hl. now rewrite Hl.
+  - rewrite (stamp_lookup lat _ _ _ A2). apply Z.eqb_neq in Hl. rewrite Hl. unfold stamp_entry, image. cbn [e_key e_value e_headers e_ts].
+    now rewrite Hv.
 Qed.
 
 Theorem nothing_added k x r base :
